@@ -126,8 +126,6 @@ std::string diffBattery(const std::vector<std::pair<std::string, std::string>>& 
 namespace vh {
 NiShape* buildMesh(NifFile& nif, const std::vector<std::string>& f);
 void skinMesh(NifFile& nif, NiShape* shape, int nbones, uint64_t seed, int maxInfl);
-}
-namespace {
 // arbitrary (not half-exact) positions and UVs on every shape, tangents where the shape has normals and UVs
 void perturb(NifFile& nif, uint64_t seed) {
 	Rng rng(seed);
@@ -160,6 +158,30 @@ void perturb(NifFile& nif, uint64_t seed) {
 			}
 		}
 	}
+}
+} // namespace vh
+namespace {
+NifSaveOptions so0(const std::string& mode) {
+	NifSaveOptions so;
+	so.optimize = so.sortBlocks = mode == "default";
+	return so;
+}
+// the property compares outputs "after canonical string-table renumbering": a save that reorders blocks numbers the string
+// table of the *next* save differently. Canonical form = the file re-read and written raw by a fresh object (the string
+// table is then rebuilt in block order).
+std::string canon(const std::string& bytes) {
+	std::stringstream in(bytes, std::ios::in | std::ios::binary);
+	NifFile x;
+	if (x.Load(in) != 0)
+		return std::string("unloadable:") + bytes;
+	std::stringstream o(std::ios::in | std::ios::out | std::ios::binary);
+	NifSaveOptions raw;
+	raw.optimize = raw.sortBlocks = false;
+	x.Save(o, raw);
+	return o.str();
+}
+bool sameUpToStrings(const std::string& x, const std::string& y) {
+	return x == y || (x.size() == y.size() && canon(x) == canon(y));
 }
 uint64_t h64(const std::string& s) {
 	uint64_t h = 1469598103934665603ull;
@@ -249,6 +271,33 @@ std::string run(const Args& a) {
 		std::string out;
 		std::vector<std::string> saves;
 		bool wp = f[0] != "synth";
+		bool interleave = false;
+		for (size_t k = 3; k < a.size(); ++k)
+			interleave = interleave || a[k] == "interleave";
+		auto stripParts = [&]() {
+			int n = 0;
+			for (uint32_t i = 0; i < nif.GetHeader().GetNumBlocks(); ++i)
+				if (auto sp = nif.GetHeader().GetBlock<NiSkinPartition>(i))
+					for (auto& p : sp->partitions)
+						n += p.numStrips > 0 ? 1 : 0;
+			return n;
+		};
+		if (interleave) {
+			// saves interleaved with read-only queries, no warm-up: save, queries, save, queries, save
+			std::vector<std::string> sv;
+			int strips0 = stripParts();
+			for (int k = 0; k < 3; ++k) {
+				std::stringstream ss(std::ios::in | std::ios::out | std::ios::binary);
+				if (nif.Save(ss, so0(a[2])) != 0)
+					return std::string("save-failed-") + std::to_string(k);
+				sv.push_back(ss.str());
+				battery(nif, wp);
+			}
+			std::string o = "interleaved sizes=" + std::to_string(sv[0].size()) + "," + std::to_string(sv[1].size()) + "," + std::to_string(sv[2].size());
+			o += std::string(" same12=") + (sameUpToStrings(sv[0], sv[1]) ? "1" : "0") + " same23=" + (sameUpToStrings(sv[1], sv[2]) ? "1" : "0");
+			o += " strips=" + std::to_string(strips0) + "/" + std::to_string(stripParts());
+			return o;
+		}
 		battery(nif, wp); // warm-up: some queries build caches (true triangles, raw vertex copies) on first use
 		auto q0 = battery(nif, wp);
 		std::string qdiff;
@@ -285,17 +334,6 @@ std::string run(const Args& a) {
 		// the property compares outputs "after canonical string-table renumbering": a save that reorders blocks numbers the
 		// string table of the *next* save differently. Canonical form = the file re-read and written raw by a fresh object
 		// (the string table is then rebuilt in block order).
-		auto canon = [](const std::string& bytes) {
-			std::stringstream in(bytes, std::ios::in | std::ios::binary);
-			NifFile x;
-			if (x.Load(in) != 0)
-				return std::string("unloadable:") + bytes;
-			std::stringstream o(std::ios::in | std::ios::out | std::ios::binary);
-			NifSaveOptions raw;
-			raw.optimize = raw.sortBlocks = false;
-			x.Save(o, raw);
-			return o.str();
-		};
 		std::string renum;
 		bool eq[2];
 		for (int k = 0; k < 2; ++k) {
